@@ -146,8 +146,16 @@ static void execute(const Exec &e, const vo::Fail &fail, Result *res = nullptr)
                     auto sv = (ob::PlannerStatus::StatusType)st;
                     // classified by what preceded the call: a first solve, a continued one, or one after clearQuery()
                     size_t opIndex = &op - &e.hist[0];
-                    std::string prevOp = opIndex > 0 ? e.hist[opIndex - 1] : "";
-                    std::string ctx = prevOp.empty() ? "|first-solve" : prevOp == "Q" ? "|after-clearQuery" : prevOp == "C" ? "|after-clear" : (prevOp[0] == 'P' ? "|after-switch" : "|continued");
+                    // the latest clear / clearQuery / switch before this call decides the class (solves, getPlannerData and
+                    // clearSolutionPaths in between do not change what the planner was told)
+                    std::string prevOp;
+                    for (size_t b = opIndex; b-- > 0;)
+                        if (e.hist[b] == "Q" || e.hist[b] == "C" || e.hist[b][0] == 'P')
+                        {
+                            prevOp = e.hist[b];
+                            break;
+                        }
+                    std::string ctx = opIndex == 0 ? "|first-solve" : prevOp == "Q" ? "|after-clearQuery" : prevOp == "C" ? "|after-clear" : (!prevOp.empty() ? "|after-switch" : "|continued");
                     auto usable = [&](const ob::State *x) { return space->satisfiesBounds(x) && P->isValid(x); };
                     if (sv == ob::PlannerStatus::INVALID_START)
                     {
